@@ -245,3 +245,67 @@ package skiplist
 //@ ensures[wf-levels] wfSegLevels(s)
 //@ ensures[allocs] s.sts.nodeAllocs == old(s.sts.nodeAllocs) + 1 || !s.sts.isLocal
 //@ nopanic
+
+//@ func (*Stats).Merge
+//@ props C14
+//@ requires s != nil && sts != nil && s != sts
+//@ modifies s.insertConflicts, s.readConflicts, s.softDeletes, s.nodeAllocs, s.nodeFrees, s.usedBytes, s.levelNodesCount
+//@ modifies sts.insertConflicts, sts.readConflicts, sts.softDeletes, sts.nodeAllocs, sts.nodeFrees, sts.usedBytes, sts.levelNodesCount
+//@ loop 1 invariant[idx] -1 <= rangeindex && rangeindex <= 32
+//@ loop 1 invariant[scalars] s.softDeletes == old(s.softDeletes) + old(sts.softDeletes) && s.nodeAllocs == old(s.nodeAllocs) + old(sts.nodeAllocs) && s.nodeFrees == old(s.nodeFrees) + old(sts.nodeFrees) && s.usedBytes == old(s.usedBytes) + old(sts.usedBytes) &&
+//@      sts.softDeletes == 0 && sts.nodeAllocs == 0 && sts.nodeFrees == 0 && sts.usedBytes == 0 && sts.insertConflicts == 0 && sts.readConflicts == 0
+//@ loop 1 invariant[done] forall k int {s.levelNodesCount[k]} :: 0 <= k && k <= rangeindex ==> s.levelNodesCount[k] == old(s.levelNodesCount[k]) + old(sts.levelNodesCount[k]) && sts.levelNodesCount[k] == 0
+//@ loop 1 invariant[todo] forall k int {s.levelNodesCount[k]} :: rangeindex < k && k <= 32 ==> s.levelNodesCount[k] == old(s.levelNodesCount[k]) && sts.levelNodesCount[k] == old(sts.levelNodesCount[k])
+//@ ensures[scalars] s.softDeletes == old(s.softDeletes) + old(sts.softDeletes) && s.nodeAllocs == old(s.nodeAllocs) + old(sts.nodeAllocs) && s.nodeFrees == old(s.nodeFrees) + old(sts.nodeFrees) && s.usedBytes == old(s.usedBytes) + old(sts.usedBytes)
+//@ ensures[levels] forall k int {s.levelNodesCount[k]} :: 0 <= k && k <= 32 ==> s.levelNodesCount[k] == old(s.levelNodesCount[k]) + old(sts.levelNodesCount[k])
+//@ ensures[zeroed] sts.softDeletes == 0 && sts.nodeAllocs == 0 && sts.nodeFrees == 0 && sts.usedBytes == 0 && sts.insertConflicts == 0 && sts.readConflicts == 0 &&
+//@      (forall k int {sts.levelNodesCount[k]} :: 0 <= k && k <= 32 ==> sts.levelNodesCount[k] == 0)
+//@ nopanic
+
+// Assemble: ghost gphys/gn accumulate the concatenation of the segments' level-0 sequences; goff[k] is the
+// offset of segment k. The result's level-0 chain is exactly that concatenation (empty segments anywhere).
+//@ ghost global gphys [int]*Node
+//@ ghost global gn int
+//@ ghost global goff [int]int
+
+//@ pure segsOK(segments []*Segment) bool = (forall k int {segments[k]} :: 0 <= k && k < len(segments) ==> wfSeg(segments[k]) && segments[k].cnt < 1099511627776) &&
+//@     (forall k1, k2 int {segments[k1], segments[k2]} :: 0 <= k1 && k1 < k2 && k2 < len(segments) ==> segments[k1] != segments[k2]) &&
+//@     (forall k1, k2, i1, i2 int {segments[k1].sq0[i1], segments[k2].sq0[i2]} :: 0 <= k1 && k1 < k2 && k2 < len(segments) && 0 <= i1 && i1 < segments[k1].cnt && 0 <= i2 && i2 < segments[k2].cnt ==> segments[k1].sq0[i1] != segments[k2].sq0[i2])
+//@ pure storeFresh(s *Skiplist) bool = s != nil && s.head != nil && s.tail != nil && s.head != s.tail && s.head < brk() && s.tail < brk()
+//@ pure accNodes() bool = gn >= 0 && (forall i int {gphys[i]} :: 0 <= i && i < gn ==> gphys[i] != nil)
+//@ pure accChain() bool = forall i, j int {gphys[i], gphys[j]} :: 0 <= i && j == i + 1 && j < gn ==> gphys[i].nx[0] == gphys[j] && !gphys[i].del[0]
+
+//@ func (*Builder).Assemble
+//@ props C18 C14
+//@ requires b != nil && storeFresh(b.store) && segsOK(segments) && len(segments) < 1048576 && ptr(segments) + 8 * len(segments) <= brk()
+//@ requires[sentinels] forall k, i int {segments[k].sq0[i]} :: 0 <= k && k < len(segments) && 0 <= i && i < segments[k].cnt ==> segments[k].sq0[i] != b.store.head && segments[k].sq0[i] != b.store.tail
+//@ requires[stats] forall k int {segments[k]} :: 0 <= k && k < len(segments) ==> segments[k].sts != b.store.Stats
+//@ ghost-pre gn := 0
+//@ modifies heap(Node.$nx), heap(Node.$del), b.store.phys, b.store.n, gphys, gn, goff, heap($alive), heap($brk)
+//@ modifies heap(Stats.insertConflicts), heap(Stats.readConflicts), heap(Stats.softDeletes), heap(Stats.nodeAllocs), heap(Stats.nodeFrees), heap(Stats.usedBytes), heap(Stats.levelNodesCount)
+//@ loop 1 ghost goff[rangeindex] := gn
+//@ loop 1 ghost gphys :| (forall i int {gphys[i]} :: 0 <= i && i < gn ==> gphys[i] == old(gphys[i])) && (forall i int {seg.sq0[i]} :: 0 <= i && i < seg.cnt ==> gphys[gn + i] == seg.sq0[i])
+//@ loop 1 ghost gn := gn + seg.cnt
+//@ loop 1 invariant[idx] -1 <= rangeindex && rangeindex < len(segments) && len(tail) == 33 && len(head) == 33 && ptr(tail) >= old(brk()) && ptr(head) >= old(brk()) && (ptr(tail) + 8 * 33 <= ptr(head) || ptr(head) + 8 * 33 <= ptr(tail))
+//@ loop 1 invariant[acc] accNodes() && accChain()
+//@ loop 1 invariant[ends] (gn == 0 ==> head[0] == nil && tail[0] == nil) && (gn > 0 ==> head[0] == gphys[0] && tail[0] == gphys[gn - 1])
+//@ loop 1 invariant[offsets] (forall k int {goff[k]} :: 0 <= k && k <= rangeindex ==> 0 <= goff[k] && goff[k] + segments[k].cnt <= gn &&
+//@     (forall i int {segments[k].sq0[i]} :: 0 <= i && i < segments[k].cnt ==> gphys[goff[k] + i] == segments[k].sq0[i]))
+//@ loop 1 invariant[segs] segsOK(segments) && storeFresh(b.store) && b.store == old(b.store)
+//@ loop 2 invariant[idx] 0 <= l && l <= 33 && 0 <= rangeindex + 1 && rangeindex + 1 < len(segments) && seg == segments[rangeindex + 1] && len(tail) == 33 && len(head) == 33 && ptr(tail) >= old(brk()) && ptr(head) >= old(brk()) && (ptr(tail) + 8 * 33 <= ptr(head) || ptr(head) + 8 * 33 <= ptr(tail))
+//@ loop 2 invariant[acc] accNodes() && accChain()
+//@ loop 2 invariant[segs] segsOK(segments) && storeFresh(b.store) && b.store == old(b.store)
+//@ loop 2 invariant[level0-pending] l == 0 ==> (gn == 0 ==> head[0] == nil && tail[0] == nil) && (gn > 0 ==> head[0] == gphys[0] && tail[0] == gphys[gn - 1])
+//@ loop 2 invariant[level0-done] l >= 1 ==> (gn > 0 && seg.cnt > 0 ==> gphys[gn - 1].nx[0] == seg.sq0[0] && !gphys[gn - 1].del[0]) &&
+//@     head[0] == ite(gn > 0, gphys[0], ite(seg.cnt > 0, seg.sq0[0], nil)) && tail[0] == ite(seg.cnt > 0, seg.sq0[seg.cnt - 1], ite(gn > 0, gphys[gn - 1], nil))
+//@ loop 3 invariant[idx] 0 <= l && l <= 33 && len(tail) == 33 && len(head) == 33 && storeFresh(b.store) && b.store == old(b.store)
+//@ loop 3 invariant[acc] accNodes() && accChain() && (forall i int {gphys[i]} :: 0 <= i && i < gn ==> gphys[i] != b.store.head && gphys[i] != b.store.tail)
+//@ loop 3 invariant[ends] (gn == 0 ==> head[0] == nil && tail[0] == nil) && (gn > 0 ==> head[0] == gphys[0] && tail[0] == gphys[gn - 1])
+//@ loop 3 invariant[hooked] l >= 1 && gn > 0 ==> b.store.head.nx[0] == gphys[0] && !b.store.head.del[0] && gphys[gn - 1].nx[0] == b.store.tail && !gphys[gn - 1].del[0]
+//@ loop 4 invariant[idx] -1 <= rangeindex && b.store == old(b.store) && b.store != nil && (forall k int {segments[k]} :: 0 <= k && k < len(segments) ==> segments[k] != nil && segments[k].sts != b.store.Stats)
+//@ ghost-exit b.store.phys := gphys
+//@ ghost-exit b.store.n := gn
+//@ ensures[result] result == old(b.store)
+//@ ensures[count] result.n == gn && gn >= 0
+//@ ensures[chain] gn > 0 ==> result.head.nx[0] == result.phys[0] && (forall i, j int {result.phys[i], result.phys[j]} :: 0 <= i && j == i + 1 && j < result.n ==> result.phys[i].nx[0] == result.phys[j] && !result.phys[i].del[0]) && result.phys[result.n - 1].nx[0] == result.tail
+//@ nopanic
